@@ -334,10 +334,11 @@ func (c *boolExprSimplifyChecker) int64val(x ast.Expr) (int64, bool) {
 	// TODO(quasilyte): if we had types info, we could use TypesInfo.Types[x].Value,
 	// but since copying erases leaves us without it, only basic literals are handled.
 	lit, ok := x.(*ast.BasicLit)
-	if !ok {
+	if !ok || lit.Kind != token.INT {
 		return 0, false
 	}
-	v, err := strconv.ParseInt(lit.Value, 10, 64)
+	// Base 0: read the literal the way the compiler does (010 is eight, 0x10 is sixteen).
+	v, err := strconv.ParseInt(lit.Value, 0, 64)
 	if err != nil {
 		return 0, false
 	}
